@@ -109,7 +109,7 @@ func busyScenarios(tier string) []busy {
 		b = 2
 	}
 	var out []busy
-	for _, o := range []string{"setthr", "setthrs", "regnode", "regpipe", "rmpipe-other", "getthr", "reopen"} {
+	for _, o := range []string{"setthr", "setthrs", "regnode", "regpipe", "rmpipe-other", "rmpipe-same", "rmpipenodes-same", "rmnode-unused", "getthr", "reopen"} {
 		out = append(out, busy{Other: o, Bound: b})
 	}
 	// Send#2 is not cancelled at all: it must finish on its own while Send#1 of the same event type is still stuck
@@ -160,6 +160,14 @@ func busyBody(c busy) func() string {
 				b.RegisterPipeline(el.Pipeline{PipelineID: "p3", EventType: "t", NodeIDs: []el.NodeID{"m", "s"}})
 			case "rmpipe-other":
 				b.RemovePipeline("u", "p2")
+			case "rmpipe-same":
+				// the very pipeline Send#1 is stuck in is removed meanwhile
+				b.RemovePipeline("t", "p1")
+			case "rmpipenodes-same":
+				b.RemovePipelineAndNodes(context.Background(), "t", "p1")
+			case "rmnode-unused":
+				b.RegisterNode("z", hn.NewNode(log, "z", el.NodeTypeSink, hn.Drop, gate).AsNode())
+				b.RemoveNode(context.Background(), "z")
 			case "getthr":
 				b.SuccessThreshold("t")
 			case "reopen":
@@ -214,7 +222,7 @@ func main() {
 			ex := &vrt.Explorer{Bound: sc.Bound, Permute: false, Body: body(sc)}
 			return hk.ExploreJob(prop, job, deadline, ex, sc.Describe())
 		},
-		Rule: "stateless DFS over all schedules (thread switches at every lock/channel/select/WaitGroup/sync.Map step of the real graph.process/doProcess, select-arm choices, cancel placed at every scheduling point) of each dispatch skeleton, preemption-bounded; an outcome is distinct if (Status, error, ctx state, invoked nodes) differ; every execution is checked for deadlock, panic, primitive misuse, leaked goroutines; plus 'busy broker' scenarios: the Send under test runs while another Send is stuck inside a blocked node and a registry call (threshold setter / getter, RegisterNode, RegisterPipeline, RemovePipeline, Reopen) is in flight - its cancellation must still let it return (bound 1 / 2, at most 4 non-default switches at blocking points)",
+		Rule: "stateless DFS over all schedules (thread switches at every lock/channel/select/WaitGroup/sync.Map step of the real graph.process/doProcess, select-arm choices, cancel placed at every scheduling point) of each dispatch skeleton, preemption-bounded; an outcome is distinct if (Status, error, ctx state, invoked nodes) differ; every execution is checked for deadlock, panic, primitive misuse, leaked goroutines; plus 'busy broker' scenarios: the Send under test runs while another Send is stuck inside a blocked node and a registry call (threshold setter / getter, RegisterNode, RegisterPipeline, RemovePipeline / RemovePipelineAndNodes of another or of the very pipeline the first Send is stuck in, RemoveNode, Reopen) is in flight - its cancellation must still let it return (bound 1 / 2, at most 4 non-default switches at blocking points)",
 		Assumptions: []string{
 			"scheduling points at synchronisation operations only (sound for data-race-free code; race freedom is decided by C04/C19)",
 			"promptness is judged in scheduler steps: blocked nodes are released only after Send returned, so a Send that needs node progress after cancellation deadlocks in the model",
